@@ -383,6 +383,34 @@ class FnFacts:
         self.hint_calls = []       # calls (outside assertions) of the relaxed "hint" loads of a future: pending() / initialized()
 
 
+def exc_type_name(o):
+    """the class named by a `throw T(...)` / `catch (const T &)` node, read from the AST (first type found below the node),
+    without namespace, cv-qualifiers and reference; `...` for a catch-all / an operand whose type is not known yet"""
+    def first_type(x):
+        if isinstance(x, dict):
+            t = (x.get("type") or {}).get("qualType")
+            if t and x.get("kind") not in ("CXXThrowExpr", "CXXCatchStmt", "CompoundStmt"):
+                return t
+            if x.get("kind") == "CompoundStmt":
+                return None
+            for c in x.get("inner", []):
+                r = first_type(c)
+                if r:
+                    return r
+        return None
+    t = None
+    for c in o.get("inner", []):
+        if isinstance(c, dict) and c.get("kind") == "CompoundStmt":
+            break
+        t = first_type(c)
+        if t:
+            break
+    if not t or "dependent type" in t:
+        return "..."
+    t = t.replace("const ", "").replace("&", "").replace("struct ", "").replace("class ", "").strip()
+    return t.split("::")[-1].strip()
+
+
 class Walker:
     def __init__(self, objs):
         self.objs = objs
@@ -879,6 +907,22 @@ class Walker:
             return
         if k in ("CXXNewExpr",):
             ff.allocs.append("new[]" if o.get("isArray") else ("placement-new" if o.get("isPlacement") else "new"))
+        if k == "CXXThrowExpr" and [c for c in o.get("inner", []) if isinstance(c, dict) and c.get("kind")]:
+            # `throw expr` allocates the exception object (__cxa_allocate_exception -> malloc, not operator new); a bare `throw;`
+            # re-raises the exception in flight and allocates nothing.  Seen with r6-c20-exhausted-generator-throws-internally.
+            ff.allocs.append("throw:" + exc_type_name(o))
+        if k == "CXXCatchStmt":
+            # a handler: the place where an exception thrown below it can be swallowed inside the library
+            # (`catch+rethrow`: its body contains a bare `throw;`, the exception goes on to the caller)
+            def rethrows(x):
+                if isinstance(x, dict):
+                    if x.get("kind") == "CXXThrowExpr" and not [c for c in x.get("inner", []) if isinstance(c, dict) and c.get("kind")]:
+                        return True
+                    if x.get("kind") == "LambdaExpr":
+                        return False
+                    return any(rethrows(c) for c in x.get("inner", []))
+                return False
+            ff.allocs.append(("catch+rethrow:" if rethrows(o) else "catch:") + exc_type_name(o))
         if k in ("MemberExpr", "CXXDependentScopeMemberExpr"):
             self.access(o, ff, ctx, write=False)
         if k == "BinaryOperator" and o.get("opcode") in ("=", "+=", "-=", "|=", "&=") or k == "CompoundAssignOperator":
@@ -1074,6 +1118,8 @@ class Walker:
                 return
             if fname in ("make_shared", "make_unique", "allocate_shared"):
                 ff.allocs.append(fname)
+            if fname == "rethrow_exception":
+                ff.allocs.append("rethrow")     # allocates a dependent exception (__cxa_allocate_dependent_exception -> malloc)
             ff.seq += 1
             ff.calls.append((fname, self.any_lock_held(ctx), ff.seq))
             ff.call_orders.append((fname, [order_arg(a, [n for _, n in ff.order_params], consts=self.consts) for a in args]))
@@ -1083,6 +1129,8 @@ class Walker:
                 return
             if fname in ("make_shared", "make_unique"):
                 ff.allocs.append(fname)
+            if fname == "rethrow_exception":
+                ff.allocs.append("rethrow")
             ff.seq += 1
             ff.calls.append((fname, self.any_lock_held(ctx), ff.seq))
         if mname is not None:
